@@ -60,6 +60,8 @@ type caseData struct {
 	Tuples [][]int `json:"tuples,omitempty"`
 	// Panics: Go semantics says the fault under test panics (used for signatures only)
 	Panics bool `json:"panics,omitempty"`
+	// AllowGo: build with BuildOptions.AllowGoStmt
+	AllowGo bool `json:"allow_go,omitempty"`
 }
 
 // Scope names of open findings (see findings.json).
@@ -85,17 +87,20 @@ func (prop) Drive(d *core.Driver) error {
 			continue
 		}
 		for fi, f := range fp.Faults {
+			if !fp.ProgFaultOK(f) {
+				continue
+			}
 			// second and third faults of the multi-fault placements rotate through the table
 			g := fp.Faults[(fi*7+pi+3)%nf]
 			h := fp.Faults[(fi*13+pi+5)%nf]
-			for !g.Panics {
+			for !g.Panics || g.TmplOnly || g.Go {
 				g = fp.Faults[(indexOf(g.Name)+1)%nf]
 			}
-			for !h.Panics {
+			for !h.Panics || h.TmplOnly || h.Go {
 				h = fp.Faults[(indexOf(h.Name)+1)%nf]
 			}
 			p := pl.Build(f, g, h)
-			cases = append(cases, core.NewCase("prog/"+pl.Name+"/"+f.Name, caseData{Kind: "prog", Label: pl.Name + "/" + f.Name, Src: p.Src, Panics: f.Panics}))
+			cases = append(cases, core.NewCase("prog/"+pl.Name+"/"+f.Name, caseData{Kind: "prog", Label: pl.Name + "/" + f.Name, Src: p.Src, Panics: f.Panics, AllowGo: f.Go}))
 			progs++
 		}
 	}
@@ -109,7 +114,7 @@ func (prop) Drive(d *core.Driver) error {
 			if !fp.TmplFaultOK(f) {
 				continue
 			}
-			cases = append(cases, core.NewCase("tmpl/"+pl.Name+"/"+f.Name, caseData{Kind: "tmpl", Label: pl.Name + "/" + f.Name, Files: pl.Build(f), Main: pl.Main, Panics: f.Panics}))
+			cases = append(cases, core.NewCase("tmpl/"+pl.Name+"/"+f.Name, caseData{Kind: "tmpl", Label: pl.Name + "/" + f.Name, Files: pl.Build(f), Main: pl.Main, Panics: f.Panics, AllowGo: f.Go}))
 			tmpls++
 		}
 	}
@@ -405,7 +410,7 @@ func workProg(cd caseData) core.Result {
 	var prog *scriggo.Program
 	var berr error
 	pv, panicked, stack := core.Guard(func() {
-		prog, berr = scriggo.Build(scriggo.Files{"main.go": []byte(cd.Src)}, &scriggo.BuildOptions{Packages: fp.Packages(log)})
+		prog, berr = scriggo.Build(scriggo.Files{"main.go": []byte(cd.Src)}, &scriggo.BuildOptions{Packages: fp.Packages(log), AllowGoStmt: cd.AllowGo})
 	})
 	if panicked {
 		return core.Result{Status: core.Skip, Detail: fmt.Sprintf("Build panicked (C04 domain): %v\n%s", pv, trimStack(stack)), Counts: map[string]int64{"build_panics": 1}}
@@ -469,6 +474,7 @@ func workTmpl(cd caseData) core.Result {
 	pv, panicked, stack := core.Guard(func() {
 		tmpl, berr = scriggo.BuildTemplate(fsys, cd.Main, &scriggo.BuildOptions{
 			Packages:          fp.Packages(log),
+			AllowGoStmt:       cd.AllowGo,
 			MarkdownConverter: mdConverter,
 		})
 	})
